@@ -562,6 +562,11 @@ class _IndexToEnumerate(ast.NodeTransformer):
 
     def _match(self, it: ast.AST):
         """-> (X, descending) or None"""
+        if isinstance(it, ast.Call) and isinstance(it.func, ast.Name) and it.func.id == "reversed" and len(it.args) == 1 and not it.keywords:
+            inner = self._match(it.args[0])
+            if inner is not None and not inner[1] and not hasattr(inner[0], "_read_through"):
+                return inner[0], True  # reversed(range(len(X))) counts down over X
+            return None
         if not (isinstance(it, ast.Call) and isinstance(it.func, ast.Name) and it.func.id == "range" and not it.keywords):
             return None
         a = it.args
@@ -590,6 +595,12 @@ class _IndexToEnumerate(ast.NodeTransformer):
     def _match_sized(self, node: ast.For):
         """`range(N)` / `range(N - 1, -1, -1)` over a local list of exactly N cells (`xs = [None] * N`) that the body indexes"""
         it = node.iter
+        if isinstance(it, ast.Call) and isinstance(it.func, ast.Name) and it.func.id == "reversed" and len(it.args) == 1 and not it.keywords \
+                and isinstance(it.args[0], ast.Call) and isinstance(it.args[0].func, ast.Name) and it.args[0].func.id == "range" and len(it.args[0].args) == 1:
+            probe = copy.copy(node)
+            probe.iter = it.args[0]
+            got = self._match_sized(probe)
+            return (got[0], True) if got is not None and not got[1] else None
         if not (isinstance(it, ast.Call) and isinstance(it.func, ast.Name) and it.func.id == "range" and not it.keywords and self.sized):
             return None
         a = it.args
@@ -917,7 +928,7 @@ def _inline_range_bounds(fn: ast.FunctionDef) -> ast.FunctionDef:
     cands: dict = {}
     for n in ast.walk(fn):
         if isinstance(n, ast.Assign) and len(n.targets) == 1 and isinstance(n.targets[0], ast.Name) and binds.get(n.targets[0].id) == 1 \
-                and n.targets[0].id not in params and isinstance(n.value, (ast.BinOp, ast.Attribute)) \
+                and n.targets[0].id not in params and isinstance(n.value, ast.BinOp) \
                 and not any(isinstance(x, (ast.Call, ast.Subscript, ast.IfExp, ast.Lambda, ast.NamedExpr)) for x in ast.walk(n.value)):
             free = {x.id for x in ast.walk(n.value) if isinstance(x, ast.Name)}
             if all(binds.get(v, 0) == 0 for v in free):
